@@ -98,14 +98,14 @@ func (s *x01Sink) settle() {
 		n := s.count()
 		if n == last {
 			stable++
-			if stable >= 4 {
+			if stable >= 8 {
 				return
 			}
 		} else {
 			stable = 0
 		}
 		last = n
-		time.Sleep(2 * time.Millisecond)
+		time.Sleep(4 * time.Millisecond)
 	}
 }
 
@@ -526,7 +526,9 @@ func TestVerifX01Pipeline(t *testing.T) {
 					time.Sleep(time.Millisecond)
 				}
 			}
-			sink.settle()
+			if stalls {
+				sink.settle()
+			}
 			w.mu.Lock()
 			code, body := w.code, w.body.String()
 			w.mu.Unlock()
